@@ -91,7 +91,7 @@ func (c19) Gen(r *core.Rng, tier string, idx int) *core.Trace {
 			}
 		}
 		n := 2 + r.Intn(20)
-		files := []string{"/A.TXT", "/DIR/B.BIN", "/long file name.text", "/DIR"}
+		files := []string{"/A.TXT", "/DIR/B.BIN", "/long file name.text", "/DIR", "/REPORT.TXT", "/REPORT.DAT", "/DIR/B.TXT"} // (files that share their base name and differ in the extension among them)
 		for i := 0; i < n; i++ {
 			p := files[r.Intn(len(files))]
 			switch r.PickW(25, 15, 15, 15, 15, 10, 5) {
@@ -185,7 +185,7 @@ func execFatAttrs(t *core.Trace) *core.Result {
 			return err
 		}
 		model["/DIR"] = &fatAttr{dir: true}
-		for _, p := range []string{"/A.TXT", "/DIR/B.BIN", "/long file name.text"} {
+		for _, p := range []string{"/A.TXT", "/DIR/B.BIN", "/long file name.text", "/REPORT.TXT", "/REPORT.DAT", "/DIR/B.TXT"} {
 			f, err := fs.OpenFile(p, os.O_CREATE|os.O_RDWR)
 			if err != nil {
 				return err
